@@ -39,20 +39,20 @@ CHECKS = {
    text="Held on every prefix tried: error or a state at a commit boundary (complete state part + prefix of logged commits) / whole blocks of the state part; no panic, no hang, no partial commit delivered by Log.Range.",
    note="Reference states E_j are built by the same Restore from well-formed input and anchored against the primary's dump."),
  "C14": dict(engine="E6 writer-fault injector", cat="fault_enumeration", ref="DESIGN.md 4/C14",
-   technique="runtime fault injection at the destination io.Writer (every byte budget / call index / once / forever), with follow-up commit, healthy snapshot+restore vs model, and fd/temp-file census with GC disabled",
+   technique="runtime fault injection at the destination io.Writer (every byte budget / call index / once / forever), with follow-up commit, healthy snapshot+restore vs model, two-column transactions read back after every fault, and fd/temp-file census with GC disabled",
    text="Held on every injected fault: error reported iff the destination failed, the collection kept committing, a later healthy snapshot restored to the model, no descriptor or temp file accumulated.",
    note="Faults are injected at the writer passed to Snapshot only; GOMAXPROCS=1 workers plus a GOMAXPROCS=4 slice."),
  "C15": dict(engine=E2+" + "+E1, cat="exploration", ref="DESIGN.md 4/C15",
-   technique="runtime monitoring: recording commit.Logger (invoked inside the block latch) under enumerated interleavings and seeded histories; exactly-once / ordering / identity oracle over the recorded event log, also through the real commit.Channel",
+   technique="runtime monitoring: recording commit.Logger (invoked inside the block latch) under enumerated interleavings (with and without a snapshot in progress), parallel stream rounds with snapshots, and seeded histories; exactly-once / ordering / identity oracle over the recorded event log, also through the real commit.Channel",
    text="Held on every executed interleaving and history: one commit per changed block per committed transaction, none for rolled-back/no-op ones, IDs non-zero, distinct and increasing per block in arrival order; the channel delivers the same (ID, block) sequence.",
    note="E2 parks tasks only at lock-free hook points."),
  "C16": dict(e1("Held on every dump and every filtered Ascend: the callback sequence is a permutation of the selected rows holding a value, in non-decreasing order of the values read at the callbacks (6-string alphabet forcing duplicates)."), ref="DESIGN.md 4/C16"),
  "C17": dict(engine="E7 TTL monitor", cat="exploration", ref="DESIGN.md 4/C17",
-   technique="runtime monitoring of the real cleanup goroutine (1/5/20 ms intervals) beside writers: clock-free safety oracle for rows that must live, liveness bounded in vacuum passes counted at a hook, exact deadline comparison after restore/replay",
+   technique="runtime monitoring of the real cleanup goroutine (1/5/20 ms intervals) beside writers: clock-free safety oracle for rows that must live, liveness bounded in vacuum passes counted at a hook, exact deadline comparison after restore/replay; block-boundary phase with an insert held open in a new block and the overlapping cleanup commit held at a hook until the insert committed",
    text="Held on every observation of every case: rows without TTL or with far deadlines were always present, short-lived rows were never removed ahead of their deadline and were gone within 5 passes that started after it, deadlines were stored exactly and survived snapshot/restore and stream replay.",
    note="Wall clock assumed not to step backwards by more than 20 ms; verdicts on rows whose deadline was moved close to the old one are withheld."),
  "C18": dict(engine=E3, cat="exploration", ref="DESIGN.md 4/C18",
-   technique="Go race detector (halt_on_error=0, log_path) over six repeated parallel workload mixes with injected delays; reports de-duplicated by function pair and classified by exact stack signature; watchdog + goroutine-dump classification for termination",
+   technique="Go race detector (halt_on_error=0, log_path) over eight repeated parallel workload mixes with injected delays; reports de-duplicated by function pair and classified by exact stack signature; watchdog + goroutine-dump classification for termination",
    text="Held = no race report other than the two recorded findings (KF-RACE-GROW, KF-RACE-ENUM-DATA, matched by exact stack signature) and every round terminated; E2's serialized schedules (C06/C08/C09/C15/C12 checks) double as deadlock probes.",
    note="The race detector reports only races that the executed schedules make observable."),
  "C19": dict(e1("Held on every transaction of the histories: per row the trigger callback log equals the model's committed stores (after merge) and row deletions, nothing for rolled-back transactions or dropped triggers; recorded finding KF-VARLEN-MERGE-REORDER via directed probe."), ref="DESIGN.md 4/C19"),
